@@ -231,7 +231,7 @@ class DuplicateKernel(Transformation):
                     # add new_items to sgraph (copy)
                     self._modify_sgraph(sub_sgraph, item, new_items)
                     # get the successors
-                    child_ignore = ignore + as_tuple(child.ignore)
+                    child_ignore = ignore + tuple(str(t).lower() for t in as_tuple(child.ignore))
                     child_successors = as_tuple([successor for successor in sub_sgraph.successors(child)
                         if successor.local_name not in child_ignore])
                     if child_successors:
